@@ -19,6 +19,8 @@ import (
 	"os/exec"
 	"path/filepath"
 	"regexp"
+	"runtime"
+	"runtime/debug"
 	"slices"
 	"sort"
 	"strconv"
@@ -126,6 +128,8 @@ type env struct {
 	dir     string
 	keys    []qkey
 	queries []hostQuery
+
+	paths chan string // pool of scratch known_hosts files, one per concurrent worker
 
 	mu    sync.Mutex
 	tally map[string]int64 // answers per outcome (c.Outcome only records that an outcome occurred)
@@ -244,11 +248,14 @@ func observe(cb ssh.HostKeyCallback, path string, lines []ref.Line, hq hostQuery
 func (e *env) evalFile(tag, name, content string, lines []ref.Line, matchS, matchL [][]bool) (kinds map[string]bool) {
 	c := e.c
 	kinds = map[string]bool{}
-	path := filepath.Join(e.dir, name)
+	// One file per worker, rewritten in place (creating and unlinking a file per case in
+	// one directory serialises the workers in the kernel).
+	_ = name
+	path := <-e.paths
+	defer func() { e.paths <- path }()
 	if err := os.WriteFile(path, []byte(content), 0o600); err != nil {
 		panic(err)
 	}
-	defer os.Remove(path)
 	invalid := false
 	for _, l := range lines {
 		if l.Invalid {
@@ -458,6 +465,10 @@ func keyKind(k qkey) string {
 }
 
 func run(c *vf.Ctx) {
+	// The live heap is tiny and the code under test allocates a lot, so the default pacing
+	// would run a collection every few milliseconds on all cores: collect by limit instead.
+	debug.SetGCPercent(-1)
+	debug.SetMemoryLimit(1 << 30)
 	c.Rule("every known_hosts file of 1..D lines (D=3 quick, 4 thorough) over the line alphabet (plain, list, [host]:port, '*' and '?' wildcards, negations, hashed, @cert-authority, @revoked, comment, blank, whitespace variants, unusable lines) x every query of the query set (6 hosts x 3 ports with and without host name, remote address known/unknown) x 8 keys (3 listed keys, a fresh key, certificates signed by each listed key and by an unlisted CA); a file is non-trivial (and counted by its line indices) when its queries produce at least two different kinds of answer")
 	c.Assume("keys are fixed test keys; only the salts of hashed entries depend on the seed")
 	c.Assume("certificates are queried with a host name only (CertChecker.CheckHostKey consults IsHostAuthority with the address argument); certificates carry no principals and never expire")
@@ -486,6 +497,12 @@ func run(c *vf.Ctx) {
 	}
 	e := &env{c: c, dir: dir, queries: buildQueries(), tally: map[string]int64{}}
 	defer func() { c.Set("answers_by_outcome", e.tally) }()
+	e.paths = make(chan string, 2*runtime.NumCPU())
+	for i := 0; i < cap(e.paths); i++ {
+		d := filepath.Join(dir, fmt.Sprintf("w%d", i))
+		os.MkdirAll(d, 0o700)
+		e.paths <- filepath.Join(d, "known_hosts")
+	}
 	e.keys = []qkey{mk("A(ed25519)", A), mk("B(ecdsa)", B), mk("C(rsa)", C), mk("D(fresh)", D),
 		mkc("cert-by-A", sA), mkc("cert-by-B", sB), mkc("cert-by-C", sC), mkc("cert-by-unlisted-CA", sE)}
 	// a certificate whose own blob is revoked
